@@ -306,7 +306,7 @@ fn container_modules() -> Vec<(String, String)> {
                     let call = if i == 0 { String::new() } else { format!(" exec.p{}", i - 1) };
                     let kw = if i % 2 == 0 { "export" } else { "proc" };
                     if docs && i % 2 == 0 {
-                        s += &format!("#! documentation of p{i}\n#!\n#! more\n");
+                        s += &format!("#! documentation of p{i} with non-ASCII letters: \u{e9} \u{2208} \u{1f600}\n#!\n#! more\n");
                     }
                     s += &format!("{kw}.p{i}{l}\n    {body}{call}\nend\n\n");
                 }
@@ -316,6 +316,8 @@ fn container_modules() -> Vec<(String, String)> {
     }
     v.push(("reexport".into(), "use.std::math::u64\nexport.u64::wrapping_add\n".into()));
     v.push(("reexport:alias".into(), "use.std::math::u64\n#! aliased\nexport.u64::wrapping_add->plus\n".into()));
+    // length prefixes of documentation strings count bytes, not characters
+    v.push(("reexport:non-ascii-docs".into(), "use.std::math::u64\n#! aliased: x \u{2208} [0, 2^64), \u{e9}\u{1f600}\nexport.u64::wrapping_add->plus\n\n#! plain \u{e9}\nexport.u64::wrapping_sub\n\n#! local \u{2208}\nexport.l\n    push.1 drop\nend\n".into()));
     v.push((
         "reexport+procs+imports".into(),
         "#! docs\n\nuse.std::math::u64\nuse.std::math::u256\nuse.std::sys\n\n#! re-exported\nexport.u64::wrapping_mul\n\nexport.u256::add_unsafe->add256\n\n#! local\nexport.l.2\n    exec.u64::wrapping_add call.u64::wrapping_sub procref.u64::overflowing_mul dropw\nend\n\nproc.internal\n    exec.l\nend\n".into(),
